@@ -18,7 +18,7 @@ import vlib
 from engines import l2gen
 from engines.memalloc import split_trace, validate_chunks
 
-PROPS = ["C01", "C02", "C03", "C04", "C05", "C09", "C12", "C14"]
+PROPS = ["C01", "C02", "C03", "C04", "C05", "C09", "C11", "C12", "C13", "C14"]
 
 PREDS = {
     "C01": {"Inv_ExclDisjoint", "Inv_ExclNotInOthersTold", "Inv_ExclNotInPoolShared", "Inv_ToldWithinAllowed",
@@ -34,7 +34,12 @@ PREDS = {
     "C09": {"Act_StoppedNeverHolds", "Inv_NoHolderWithoutContainer", "Inv_Quiescent", "Inv_QuiescentNoMemory"},
     "C12": {"Act_PreserveCpuNeverTold", "Act_PreserveMemNeverChanged"},
     "C14": {"Act_NoPanic", "Act_StillServes", "Act_Returns"},
+    "C11": {"Act_SyncPurgesUnknown", "Act_SyncExactlyLiveHold"},
+    "C13": {"Act_ReconfigSameIsNoop", "Act_RejectedIsNoop", "Act_RejectedLeavesNoTrace"},
 }
+# C11 / C13 additionally own every state-invariant violation INTRODUCED by a Synchronize/Restart resp. Reconfigure step
+STATE_PREDS = set().union(*[PREDS[p] for p in ("C01", "C02", "C03", "C04", "C05", "C09")]) | {"Act_StoppedNeverHolds"}
+OWN_EVENTS = {"C11": {"Sync", "Restart"}, "C13": {"Reconfigure"}}
 
 DESIGN = {  # property -> (module, quick cfg, thorough cfg, description)
     "C01": ("MC_TopologyAware", "MC_TopologyAware.cfg", "MC_TopologyAware.cfg", "TopologyAware on T1 (root + 2 NUMA pools, reserved + isolated CPU), 3 containers x 9 classes"),
@@ -45,6 +50,8 @@ DESIGN = {  # property -> (module, quick cfg, thorough cfg, description)
     "C12": ("MC_Pipeline", "MC_Pipeline_quick.cfg", "MC_Pipeline.cfg", "Pipeline (delivery of policy decisions); the opt-out predicates are checked on real traces"),
     "C14": ("MC_Pipeline", "MC_Pipeline_C14_quick.cfg", "MC_Pipeline_C14.cfg", "Pipeline with the unconstrained environment (any event, any id, any order)"),
     "C04": ("MC_MemAlloc", "MC_MemAlloc_quick.cfg", "MC_MemAlloc.cfg", "MemAlloc (libmem design) on 3-node layouts"),
+    "C11": ("MC_Pipeline", "MC_Pipeline_quick.cfg", "MC_Pipeline.cfg", "Pipeline: Synchronize with arbitrary runtime lists (known containers take the runtime's state, unknown ones are purged) interleaved with all other requests"),
+    "C13": ("MC_Pipeline", "MC_Pipeline_quick.cfg", "MC_Pipeline.cfg", "Pipeline: Reconfigure (policy writes, push of every pending change, failing update followed by the revert)"),
 }
 
 
@@ -65,6 +72,14 @@ def gen_histories(ctx, binp, pid):
         worlds += l2gen.ta_worlds(ms, rnd, nworld if len(pols) == 1 else nworld // 2)
     if "balloons" in pols:
         worlds += l2gen.balloons_worlds(ms, rnd, nworld if len(pols) == 1 else nworld // 2)
+    if pid == "C11":
+        return [l2gen.restart_history(w, rnd, nops) for w in worlds for _ in range(per_world)]
+    if pid == "C13":
+        hs = []
+        for w in worlds:
+            for _ in range(max(1, per_world // 2)):
+                hs += l2gen.reconf_histories(w, rnd, nops)
+        return hs
     for w in worlds:
         for j in range(per_world):
             disorder = 0.0
@@ -78,10 +93,14 @@ def stats(trace_path):
     st = {"events": 0, "histories": 0, "worlds": set(), "create_ok": 0, "create_failed": 0, "updates_in_replies": 0,
           "multi_update_replies": 0, "pushed_batches": 0, "update_ok": 0, "update_failed": 0, "stop": 0, "sync": 0, "reconfigure_ok": 0,
           "excl_grants": 0, "isolated_grants": 0, "reserved_grants": 0, "mixed_grants": 0, "preserve_cpu": 0, "preserve_mem": 0,
+          "restarts": 0, "sync_gone": 0, "sync_new": 0, "sync_state_changed": 0, "reconfigure_same": 0, "reconfigure_rejected": 0,
+          "reconfigure_changed": 0, "twin_compared": 0,
           "zone_moves": 0, "balloons_created": 0, "balloons_deleted": 0, "shared_idle": 0, "panics": 0, "probes_ok": 0, "quiescent_points": 0, "states": set(), "boot_errors": 0}
+    prev_ctrs = None
     for l in open(trace_path):
         e = json.loads(l)
         if e["ev"] == "reset":
+            prev_ctrs = {}
             st["histories"] += 1
             st.pop("_prev_balloons", None)
             if "booterr" in e:
@@ -105,6 +124,18 @@ def stats(trace_path):
             st["sync"] += 1
         if ev == "Reconfigure" and ok:
             st["reconfigure_ok"] += 1
+            st["reconfigure_same" if e.get("same") else "reconfigure_changed"] += 1
+        if ev == "Reconfigure" and e["err"]:
+            st["reconfigure_rejected"] += 1
+        if ev == "Restart":
+            st["restarts"] += 1
+        if "tw" in e:
+            st["twin_compared"] += 1
+        if ev == "Sync" and prev_ctrs is not None:
+            rt = e.get("rtctrs", {})
+            st["sync_gone"] += 1 if any(c not in rt for c in prev_ctrs) else 0
+            st["sync_new"] += 1 if any(c not in prev_ctrs for c in rt) else 0
+            st["sync_state_changed"] += 1 if any(c in rt and ((rt[c] == "stopped") != (prev_ctrs[c] == "exited")) for c in prev_ctrs) else 0
         if e.get("tag") == "probe" and ok:
             st["probes_ok"] += 1
         n = len(e.get("upd", []))
@@ -113,6 +144,7 @@ def stats(trace_path):
         st["pushed_batches"] += len(e.get("pushed", []))
         s = e.get("st")
         if s:
+            prev_ctrs = {c: v["st"] for c, v in s["ctr"].items()}
             pol = s.get("pol") or {}
             gr = pol.get("grants") or []
             if ev == "Create" and ok:
@@ -156,6 +188,8 @@ NEED = {
     "C09": ["quiescent_points", "create_failed", "stop"],
     "C12": ["preserve_cpu", "preserve_mem", "updates_in_replies"],
     "C14": ["probes_ok", "create_failed"],
+    "C11": ["restarts", "sync", "create_ok", "sync_gone", "sync_new", "sync_state_changed"],
+    "C13": ["reconfigure_ok", "reconfigure_same", "reconfigure_rejected", "reconfigure_changed", "twin_compared"],
 }
 
 
@@ -203,6 +237,8 @@ def run(ctx):
     # 2./3. drivers + replay on the real code
     hs = gen_histories(ctx, binp, pid)
     tp = l2gen.run_histories(binp, hs, ctx.path("run"), timeout=1200 if ctx.quick else 3000)
+    if pid == "C13":
+        l2gen.annotate_twins(tp, hs)
 
     # 4. trace validation
     files, nhist, nlines = split_trace(tp, 8 if ctx.quick else 32, ctx.out)
@@ -215,6 +251,8 @@ def run(ctx):
         consumed += r["consumed"]
         viols += r["viols"]
     mine = [v for v in viols if v["pred"] in PREDS[pid]]
+    if pid in OWN_EVENTS:
+        mine += [v for v in viols if v["pred"] in STATE_PREDS and v["ev"] in OWN_EVENTS[pid]]
     drift = sum(1 for v in viols if v["pred"].startswith("Drift_"))
 
     st = stats(tp)
